@@ -91,7 +91,7 @@ def run_batch(batch_lines, tag, jobs=8, model_mode="trace", model_arg=None, run_
         pfile = os.path.join(WORK, f"{tag}_{idx}.vp")
         open(pfile, "w").write("\n".join(lines) + "\n")
         if run_impl:
-            rc, out, err, dt = sh([VH, "run", pfile], timeout=1800)
+            rc, out, err, dt = sh([VH, "run", pfile], timeout=900, mem_gb=6)
         else:
             rc, out, err, dt = 0, "", "", 0.0
         ifile = os.path.join(WORK, f"{tag}_{idx}.impl")
